@@ -28,14 +28,19 @@ fn feed_closure<const N: usize>(driver: u8) {
             cnt - 1 != stop_at
         };
         let mut cb: OpaqueCallback<u8> = (&mut f).into();
-        match driver {
-            0 => Some(items[..n].iter().copied().feed_into(cb)),
-            1 => {
-                let r = items[..n].iter().copied().feed_into_mut(&mut cb);
-                Some(r)
-            }
-            _ => {
+        // the source either knows its exact length or promises nothing (`filter`: size_hint() == (0, Some(n)))
+        let no_hint: bool = nd::any();
+        match (driver, no_hint) {
+            (0, false) => Some(items[..n].iter().copied().feed_into(cb)),
+            (0, true) => Some(items[..n].iter().copied().filter(|_| true).feed_into(cb)),
+            (1, false) => Some(items[..n].iter().copied().feed_into_mut(&mut cb)),
+            (1, true) => Some(items[..n].iter().copied().filter(|_| true).feed_into_mut(&mut cb)),
+            (_, false) => {
                 cb.extend(items[..n].iter().copied());
+                None
+            }
+            (_, true) => {
+                cb.extend(items[..n].iter().copied().filter(|_| true));
                 None
             }
         }
